@@ -343,6 +343,10 @@ HARNESSES = [
             assumptions=['extends is a strict partial order (irreflexive, antisymmetric, transitive)']),
 ]
 
+for _k in HARNESSES:
+    if _k.name in ('s_algebra',):
+        _k.stub_kernel = True      # drives private functions / extension points with stub containers (see vlib.runner)
+
 MANIFEST = {
     'engine': 'symx',
     'technique': 'symbolic execution (CrossHair engine + z3) over solver-enumerated pairs of nested declaration operands run through the real '
